@@ -326,7 +326,7 @@ theorem history_all_invariants_discovery (cfg : Config) (hhold : cfg.hold = true
       intro P F hI hJ hH
       exact history_all_invariants_consistent cfg hnew hundo hirr U hU r F _ P hI hJ hH
         (fun x hx => hin x (by simp [hx])) hL.2 (Or.inl (by rw [processBlock_includeInit]; exact hP.noInit))
-    rcases hd with ⟨hP', _⟩ | ⟨_, _, hI, hJ, hH⟩ | ⟨Lb, news, _, _, _, hI, hJ, hH⟩
+    rcases hd with ⟨hP', _⟩ | ⟨_, _, hI, hJ, hH, _⟩ | ⟨Lb, news, _, _, _, hI, hJ, hH, _⟩
     · exact ih _ hP' (fun x hx => hin x (by simp [hx])) hL.2
     · exact Or.inr (hafter [] [b.id] hI hJ hH)
     · exact Or.inr (hafter _ [Lb.id] hI hJ hH)
